@@ -183,8 +183,17 @@ def main():
             if not os.environ.get("VPAR_VERIF_REV"):
                 meta["last_rerun"] = {"verdict": verdict, "clause": clause, "violating_runs": nviol}
                 json.dump(meta, open(os.path.join(ROOT, "seeded", d, "meta.json"), "w"), indent=1)
-        if not sel and not os.environ.get("VPAR_VERIF_REV"):
-            open(os.path.join(ROOT, "seeded", "RESULTS.md"), "w").write("\n".join(lines) + "\n")
+        if not os.environ.get("VPAR_VERIF_REV"):
+            path = os.path.join(ROOT, "seeded", "RESULTS.md")
+            if sel and os.path.exists(path):
+                # partial re-run: replace the rows of the evaluated changes, keep the others
+                new_rows = {l.split("|")[1].strip(): l for l in lines if l.startswith("| C")}
+                old = open(path).read().splitlines()
+                merged = [new_rows.pop(l.split("|")[1].strip(), l) if l.startswith("| C") else l for l in old]
+                merged += list(new_rows.values())
+                open(path, "w").write("\n".join(merged) + "\n")
+            else:
+                open(path, "w").write("\n".join(lines) + "\n")
         missed = [l for l in lines if "| MISSED" in l]
         print(f"{len(order)} changes, {len(missed)} missed")
     else:
